@@ -55,7 +55,9 @@ Definition model_topo_same (c : list (str * list str) * list (str * list str)) :
 Definition agree_sort_classes (c : list (str * list str) * list str * (list str + nat)) : bool :=
   let '(D, g, obs) := c in agree_result lstr_eqb (s_sort_classes D g) obs.
 
-(* ---- native_types / sort_types: (observed list(set(..)) order, observed sorted) ---- *)
+(* ---- native_types: (declared python types, observed attr.native_types) ---- *)
+Definition agree_native (c : list str * list str) : bool := lstr_eqb (native_types (fst c)) (snd c).
+(* ---- sort_types: (argument order, observed sorted) ---- *)
 Definition agree_types (c : list str * list str) : bool := lstr_eqb (sort_types (fst c)) (snd c).
 Definition guard_types (c : list str * list str) : bool := native_guard (fst c).
 
